@@ -72,13 +72,14 @@ theorem no_pickle (b : Ctx) (hcfg : b.cfg.allowPickle = false) (fuel : Nat) (bur
   have := List.all_eq_true.mp (reachable_inv b fuel bursts).good _ ht
   simp [Ev.good, Touch.good, hk, hcfg] at this
 
-/-- **(4) no_import**: no `__import__` unless `import_custom_exceptions`; no lookup in `sys.modules` (of the module
-or of a class in it) unless one of the two exception switches is on — whatever exception payload arrives -/
+/-- **(4) no_import**: no `__import__` unless `import_custom_exceptions`; no lookup in `sys.modules` unless one of the
+two exception switches is on — whatever exception payload arrives.  (A class is read out of a present module's namespace
+as data; there is no attribute access on a module in the model at all.) -/
 theorem no_import (b : Ctx) (hi : b.cfg.importCustomExc = false) (fuel : Nat) (bursts : List (List Wire)) (t : Touch)
     (ht : Ev.touch t ∈ (run b fuel {} bursts).log) :
-    t.kind ≠ .import_ ∧ (b.cfg.instantiateCustomExc = false → t.kind ≠ .modPresent ∧ t.kind ≠ .modattr) := by
+    t.kind ≠ .import_ ∧ (b.cfg.instantiateCustomExc = false → t.kind ≠ .modPresent) := by
   have := List.all_eq_true.mp (reachable_inv b fuel bursts).good _ ht
-  refine ⟨?_, fun hj => ⟨?_, ?_⟩⟩ <;> intro hk <;> simp_all [Ev.good, Touch.good]
+  refine ⟨?_, fun hj => ?_⟩ <;> intro hk <;> simp_all [Ev.good, Touch.good]
 
 /-- (3)+(4) for the generated default configuration -/
 theorem default_gates_closed :
